@@ -545,6 +545,61 @@ func PartC(spec EngSpec, col *ev.Collector, starts []Ref, dl ev.Deadline) (st St
 					Replay: map[string]interface{}{"kind": "clear", "engine": spec.Name, "state": refJSON(from), "op": a}})
 			}
 			st.BatchTransitions++
+			// a batch object is reused (the store keeps one default batch): what it held before Clear, or
+			// what it committed before, must not influence what it does next
+			for _, b := range ops {
+				// (delete-range as the earlier operation: one representative is enough, the later one ranges over all)
+				if a.Kind == "delrange" && !(string(a.K) == string(BKeys[0]) && string(a.V) == string(K("\xff\xff"))) {
+					break
+				}
+				Load(eng, from)
+				want := from.clone()
+				if !applyRef(want, b) {
+					continue
+				}
+				wb := eng.NewWriteBatch()
+				addOp(wb, a)
+				wb.Clear()
+				addOp(wb, b)
+				err := wb.Commit()
+				wb.Destroy()
+				st.BatchTransitions++
+				if got := Dump(eng); err != nil || refKey(got) != refKey(want) {
+					col.Add(ev.Violation{Property: "C20", Signature: fmt.Sprintf("%s|batch|reuse-after-clear|%s,%s", spec.Name, a.Kind, b.Kind),
+						What:   fmt.Sprintf("%s: state {%s}: %v, Clear, %v, Commit on one batch object: engine {%s} err %v, reference {%s}", spec.Name, from, a, b, got, err, want),
+						Replay: map[string]interface{}{"kind": "reuse-clear", "engine": spec.Name, "state": refJSON(from), "batch": []Op{a, b}}})
+				}
+				if b.K == nil {
+					continue
+				}
+				// a; Commit; Clear; another batch overwrites b's key; b; Commit
+				Load(eng, from)
+				want = from.clone()
+				other := Op{"put", b.K, u64(100)}
+				defined := applyRef(want, a)
+				defined = applyRef(want, other) && defined
+				defined = applyRef(want, b) && defined
+				wb = eng.NewWriteBatch()
+				addOp(wb, a)
+				err1 := wb.Commit()
+				wb.Clear()
+				wb2 := eng.NewWriteBatch()
+				addOp(wb2, other)
+				err2 := wb2.Commit()
+				wb2.Destroy()
+				addOp(wb, b)
+				err3 := wb.Commit()
+				wb.Destroy()
+				st.BatchTransitions++
+				if !defined {
+					continue
+				}
+				if got := Dump(eng); err1 != nil || err2 != nil || err3 != nil || refKey(got) != refKey(want) {
+					col.Add(ev.Violation{Property: "C20", Signature: fmt.Sprintf("%s|batch|reuse-after-commit|%s,%s", spec.Name, a.Kind, b.Kind),
+						What:   fmt.Sprintf("%s: state {%s}: batch1 [%v] Commit Clear; batch2 [%v] Commit; batch1 [%v] Commit: engine {%s} err %v %v %v, reference {%s}", spec.Name, from, a, other, b, got, err1, err2, err3, want),
+						Replay: map[string]interface{}{"kind": "reuse-commit", "engine": spec.Name, "state": refJSON(from), "batch": []Op{a, other, b}}})
+				}
+			}
 			for _, b := range ops {
 				Load(eng, from)
 				want := from.clone()
